@@ -1,12 +1,13 @@
 (** Property C09 — BioConsert is never worse than any of its starting points.
-    Status (PARTIAL): proved — the selection step reports the minimum of the scores reached from the
-    departure rankings and returns only rankings with that score; PickAPerm's answer is a minimum over the
-    (unified) inputs, which are departure rankings of default BioConsert.  Judged per run in Coq (not a
-    theorem, it needs the monotonicity of the local search): the score of every returned ranking is at most
-    the score of every departure ranking, the departures being recomputed by the model from the dataset /
-    from the starters' own consensus in the id space of the input dataset (F4). *)
+    Status: proved on the model.  Every accepted move of the local search lowers the true score (C08), so the
+    score reached from a departure is at most the departure's; the selection step reports the minimum of these
+    and returns only rankings with that score: the reported score, shared by all the returned rankings, is at
+    most the score of EVERY departure vector ([C09_never_worse]).  The departures of the model (distinct unified
+    inputs + all-tied, or the starters' consensuses, in the id space of the input dataset - F4) are compared
+    with the library's per run; PickAPerm's answer is a minimum over the (unified) inputs, which are departure
+    rankings of default BioConsert. *)
 From Corankco Require Import Prelude Scheme SchemeProof Rank KemenySpec CostTable OptTheory Markov Borda BioConsert
-     PickAPerm PickAPermProof Judge.JBio BioProof.
+     PickAPerm PickAPermProof Judge.JBio BioProof BioMoves BioLoop BioAlgo.
 Local Open Scope Z_scope.
 
 Theorem C09_select_best_min : forall one U results,
@@ -25,3 +26,18 @@ Theorem C09_pickaperm_is_min_over_inputs : forall one s D,
     (one = true -> length out = 1%nat).
 Proof. exact pickaperm_spec. Qed.
 Print Assumptions C09_pickaperm_is_min_over_inputs.
+
+Theorem C09_never_worse : forall fuel one s D deps sc rs,
+  valid s ->
+  let U := universe D in let n := length U in let K := cost_table s D in
+  (0 < n)%nat -> deps <> [] -> Forall (fun d => exists m, DenseTo n d m) deps ->
+  bioconsert_on fuel one s D deps = Some (sc, rs) ->
+  (forall d, In d deps -> sc <= score_vec K n d) /\ rs <> [] /\ (one = true -> length rs = 1%nat) /\
+  forall c, In c rs -> exists v m, c = decode_vec U v /\ DenseTo n v m /\ score_vec K n v = sc /\ local_opt K n v THR = true.
+Proof. exact bioconsert_on_spec. Qed.
+Print Assumptions C09_never_worse.
+
+Theorem C09_local_search_monotone : forall K n fuel r m r' s, mirror K -> (0 < n)%nat -> DenseTo n r m ->
+  bio_one fuel K n r = Some (r', s) -> s = score_vec K n r' /\ s <= score_vec K n r.
+Proof. intros K n fuel r m r' s M Hn HD E. destruct (bio_one_spec K n fuel r m r' s M Hn HD E) as (A & B & _). split; assumption. Qed.
+Print Assumptions C09_local_search_monotone.
